@@ -1,4 +1,5 @@
 import Martian.Lexer
+import Martian.LexerId
 import Martian.Regex
 import Proofs.Lexer
 import Proofs.Regex
@@ -902,15 +903,8 @@ theorem matchFloat_goSyntax (b t : Bytes) (h : Lexer.matchFloat false b = some t
   obtain ⟨sg, d1, tl, rfl, hsg1, hsg2, hd1ne, hd1d, htail, _⟩ := (float_shape_iff t post).mpr h
   exact goFloatSyntax_shape sg d1 tl hsg1 hsg2 hd1ne hd1d htail
 
-/-- Go's `strconv.ParseInt(s, 10, 64)` syntax: optional sign, then at least one
-digit, nothing else (underscores are only allowed with base 0). -/
-def goIntSyntax (s : Bytes) : Bool :=
-  let (_, r) := Lexer.optSign s
-  let (ds, rest) := Lexer.spanDigits r
-  ds ≠ [] && rest = []
-
 /-- The integer rule admits only texts of Go's decimal integer syntax. -/
-theorem matchInt_goSyntax (b t : Bytes) (h : Lexer.matchInt b = some t) : goIntSyntax t = true := by
+theorem matchInt_goSyntax (b t : Bytes) (h : Lexer.matchInt b = some t) : Lexer.goIntSyntax t = true := by
   obtain ⟨sg, ds, rfl, hsg, hne, hd, _⟩ := Lexer.matchInt_shape h
   have hos : Lexer.optSign (sg ++ ds) = (sg, ds) := by
     apply optSign_digits sg ds _ _ hne hd
@@ -919,7 +913,7 @@ theorem matchInt_goSyntax (b t : Bytes) (h : Lexer.matchInt b = some t) : goIntS
       rcases hsg with rfl | rfl
       · simp at hc
       · simp only [List.mem_singleton] at hc; subst hc; decide
-  unfold goIntSyntax
+  unfold Lexer.goIntSyntax
   simp only [hos, spanDigits_all ds hd]
   simp [hne]
 
